@@ -832,7 +832,7 @@ DIRECTED = {
         "wire.go": '//go:build wireinject\n\npackage main\n\nimport "github.com/google/wire"\n\nvar StoreSet = wire.NewSet(NewImpl, wire.Bind(new(Store), new(*Impl)))\n\nfunc InitApp() *App {\n\twire.Build(StoreSet, NewApp)\n\treturn nil\n}\n\nfunc InitReport() *Report {\n\twire.Build(NewImpl, NewReport)\n\treturn nil\n}\n'},
     # wire.Struct("*") leaves fields tagged `wire:"-"` alone (repaired)
     "struct_wire_dash_tag": {
-        "t.go": 'package main\n\ntype Host string\ntype Port int\ntype Secret string\n\ntype Config struct {\n\tHost   Host\n\tPort   Port\n\tSecret Secret `wire:"-"`\n}\n\nfunc ProvideHost() Host     { return "h" }\nfunc ProvidePort() Port     { return 80 }\nfunc ProvideSecret() Secret { return "s3" }\n\ntype App struct {\n\tC *Config\n\tS Secret\n}\n\nfunc NewApp(c *Config, s Secret) *App { return &App{c, s} }\n',
+        "t.go": 'package main\n\ntype Host string\ntype Port int\ntype Secret string\n\ntype Config struct {\n\tHost   Host\n\tSecret Secret `wire:"-"`\n\tPort   Port\n}\n\nfunc ProvideHost() Host     { return "h" }\nfunc ProvidePort() Port     { return 80 }\nfunc ProvideSecret() Secret { return "s3" }\n\ntype App struct {\n\tC *Config\n\tS Secret\n}\n\nfunc NewApp(c *Config, s Secret) *App { return &App{c, s} }\n',
         "main.go": 'package main\n\nfunc main() { a := InitApp(); println(string(a.C.Host), int(a.C.Port), "[" + string(a.C.Secret) + "]", string(a.S)) }\n',
         "wire.go": '//go:build wireinject\n\npackage main\n\nimport "github.com/google/wire"\n\nfunc InitApp() *App {\n\twire.Build(ProvideHost, ProvidePort, ProvideSecret, wire.Struct(new(Config), "*"), NewApp)\n\treturn nil\n}\n'},
     # wire.Struct(new(T)) without field names fills no field (repaired: it was migrated as "*")
